@@ -172,6 +172,11 @@ func verifC09_Inherit() {
 		changed = true
 		verifCover("default-policy-switched")
 	}
+	// ... while a rule that names its policy itself is untouched by a switch of the default
+	if !vRule0ViaDefault && verifBool("defaultPolicyRefSwitchedWhileTheRuleNamesItsPolicy") {
+		ns.DefaultPolicyRef = "strict"
+		verifCover("default-switched-under-an-explicit-rule")
+	}
 	// the unchanged rule may sit at another position in the new spec (a rule was added in front)
 	k := 0
 	if verifBool("ruleInsertedInFront") {
